@@ -262,6 +262,9 @@ func genConcTxPlan(prop string, seed uint64, thorough bool) *Plan {
 		items := []Item{{Op: "barrier", N: 1}}
 		add := func(a ...string) { items = append(items, cmdItem(a...)) }
 		ntx := 1 + g.r.IntN(2)
+		if g.chance(2) {
+			add("SELECT", "1") // this connection works in the second database
+		}
 		for t := 0; t < ntx && len(items) < budget/nc+4; t++ {
 			if prop == "C10" || g.chance(3) {
 				add("WATCH", g.key())
@@ -274,6 +277,13 @@ func genConcTxPlan(prop string, seed uint64, thorough bool) *Plan {
 				add(g.concCmd(tk)...)
 			}
 			add("MULTI")
+			if g.chance(2) {
+				// the transaction moves to the other database half way: EXEC has to
+				// own that one too for the rest of the queue
+				add(g.concCmd(tk)...)
+				add("SELECT", g.pick("0", "1"))
+				add("INCR", firstOr(tk[tString], g.key()))
+			}
 			for q := 1 + g.r.IntN(3); q > 0; q-- {
 				if g.chance(3) {
 					add("INCR", firstOr(tk[tString], g.key()))
@@ -294,6 +304,6 @@ func genConcTxPlan(prop string, seed uint64, thorough bool) *Plan {
 		p.Clients = append(p.Clients, Client{Items: items, Depth: 1 + g.r.IntN(2)})
 	}
 	p.Clients[0].Items = append(p.Clients[0].Items, Item{Op: "barrier", N: 2})
-	p.Clients = append(p.Clients, observation(g.keys, 2))
+	p.Clients = append(p.Clients, observation(g.keys, 2, 0, 1))
 	return p
 }
